@@ -86,6 +86,7 @@ def compare_cfg(p, impl, model):
     if impl["tokens"] != model:
         first = next((i for i, (a, b) in enumerate(zip(impl["tokens"], model)) if a != b), min(len(model), len(impl["tokens"])))
         return {"first_differing_block": first, "impl_cfg": impl["dump"],
+                "hidden_names_not_of_the_form_%tmpN": impl.get("nonstandard_hidden_names", []),
                 "model_block_tokens": model[first] if first < len(model) else None,
                 "impl_block_tokens": impl["tokens"][first] if first < len(impl["tokens"]) else None,
                 "n_blocks": [len(impl["tokens"]), len(model)]}
